@@ -739,6 +739,8 @@ class Machine:
             return self.call_path(f.path, list(args))
         if isinstance(f, PyFn):
             return f.f(self.ctx, *args)
+        if isinstance(f, CtorRef):
+            return Enum(f.ty, f.variant, f.idx, list(args))
         raise Unsupported('call of non-callable %r' % (f,))
 
     def call_path(self, path, args, term=None):
@@ -1170,6 +1172,9 @@ class Machine:
             if len(segs) >= 2:
                 vs = self.enum_variants_of(segs[-2], t)
                 if vs and segs[-1] in vs:
+                    kind = self.res.variant_kind.get((segs[-2], segs[-1]), 'unit')
+                    if segs[-2] == 'Option' and segs[-1] == 'Some' or segs[-2] == 'Result' or kind == 'tuple':
+                        return CtorRef(segs[-2], segs[-1], vs.index(segs[-1]))
                     return Enum(segs[-2], segs[-1], vs.index(segs[-1]), [])
         return FnRef(t)
 
@@ -1759,7 +1764,7 @@ class Machine:
 
     def clone(self, v):
         """Deep clone (Clone::clone semantics for owned data)."""
-        if isinstance(v, (Int, FP, bool, z3.ExprRef, Ref, SliceRef, StrRef, FnRef, PyFn, Opaque)) or v is None:
+        if isinstance(v, (Int, FP, bool, z3.ExprRef, Ref, SliceRef, StrRef, FnRef, PyFn, Opaque, CtorRef)) or v is None:
             return v
         if isinstance(v, StringObj):
             return StringObj(StrBuf(v.buf.chars, v.buf.widths))
